@@ -90,6 +90,24 @@ fn mdhd_bytes(code: u16) -> Vec<u8> {
 }
 
 pub fn run(tier: Tier, seed: u64) -> i32 {
+    // every mapping is total over its domain: a panic anywhere in the sweeps is a violation (reported with the panic
+    // site; the small enumerations report the exact value themselves), not a failure of the machinery
+    match guard(|| run_inner(tier, seed)) {
+        Ok(code) => code,
+        Err(p) => {
+            let rep = Reporter::new("C16");
+            rep.report(Violation::new("C16", "mapping_panicked", json!({"engine": "domain_sweep"})).tag("panic").obs(json!(short_loc(&p))));
+            let mut ev = Evidence::new("C16", tier, seed, "model_checking");
+            ev.set("evaluations", json!(0));
+            ev.set("exhaustive", json!(false));
+            ev.set("caps_hit", json!(["a mapping panicked during a sweep; the sweep was abandoned"]));
+            ev.set("samples", json!([short_loc(&p)]));
+            conclude(&ev, &rep)
+        }
+    }
+}
+
+fn run_inner(tier: Tier, seed: u64) -> i32 {
     let mut ev = Evidence::new("C16", tier, seed, "model_checking");
     let rep = Reporter::new("C16");
     let cnt = Cnt { evals: AtomicU64::new(0) };
@@ -441,6 +459,18 @@ pub fn run(tier: Tier, seed: u64) -> i32 {
     let mut enum_rej = 0u64;
     for v in 0..=u8::MAX {
         cnt.evals.fetch_add(3, Ordering::Relaxed);
+        // a mapping that panics on a value of its domain is reported with that value
+        let panics: Vec<&str> = [("audio_object_type", guard(|| AudioObjectType::try_from(v).is_ok()).is_err()), ("sample_freq_index", guard(|| SampleFreqIndex::try_from(v).is_ok()).is_err()), ("channel_config", guard(|| ChannelConfig::try_from(v).is_ok()).is_err())]
+            .iter()
+            .filter(|(_, p)| *p)
+            .map(|(n, _)| *n)
+            .collect();
+        if !panics.is_empty() {
+            for n in panics {
+                rep.report(Violation::new("C16", n, json!({"v": v})).tag("panic").obs(json!("try_from panicked")));
+            }
+            continue;
+        }
         match AudioObjectType::try_from(v) {
             Ok(t) if aot_valid(v) && t as u8 == v => enum_acc += 1,
             Err(_) if !aot_valid(v) => enum_rej += 1,
